@@ -24,6 +24,15 @@ def main(a):
     prop = rec.get("property")
     print(f"replay of {a.file}: property={prop} obligation={rec.get('obligation')}")
     print("what:", rec.get("what"))
+    if isinstance(rec.get("input"), dict) and rec["input"].get("rtcheck"):
+        from runtime import rtcheck
+        res = rtcheck.replay_input(a.repo, rec["input"]["contract"], rec["input"]["args"])
+        print("native replay:", res)
+        if res.get("violated"):
+            print(f"VIOLATION property={prop} replay={a.file}")
+            return 1
+        print("not reproduced on the current tree")
+        return 0
     if rec.get("input") is not None and rec.get("key"):
         sys.path.insert(0, a.repo)
         from vlib.props import PROPS
